@@ -321,34 +321,48 @@ class ThreadScratch:
                                           "concurrently running iterations" % ((tid.loop, tid.it), cur))
         return (tid.loop, tid.it), int(idx)
 
+    def _materialise(self):
+        """what the nT thread rows hold once the main parallel loop is over, under the symbolic schedule:
+        M[r, idx] = sum over iterations `it` of delta(it, r) * contribution(it, idx).  From the first access by a plain row
+        number on, the scratch behaves like this ordinary (symbolic) matrix, whatever the reduction code does with it."""
+        if getattr(self, "M", None) is None:
+            M = _np.empty((self.nT, self.n), dtype=object)
+            M.fill(0)
+            for it, d in self.contrib.items():
+                for r in range(self.nT):
+                    dl = self._delta(it, r)
+                    for idx, v in d.items():
+                        M[r, idx] = M[r, idx] + X(dl * val(v))
+            self.M = M.view(XArray)
+        return self.M
+
+    @staticmethod
+    def _is_tid_key(key):
+        return isinstance(key, tuple) and len(key) >= 1 and type(key[0]).__name__ == "Tid"
+
     def __getitem__(self, key):
-        if isinstance(key, (int, _np.integer)) and type(key).__name__ != "Tid":
-            r = int(key)
-            self.rows_read.append(r)
-            row = _np.empty(self.n, dtype=object)
-            row.fill(0)
-            for it, d in self.contrib.items():
-                dl = self._delta(it, r)
-                for idx, v in d.items():
-                    row[idx] = row[idx] + X(dl * val(v))
-            return row.view(XArray)
-        if isinstance(key, tuple) and len(key) == 2 and type(key[0]).__name__ != "Tid" and not self.oracle.stack:
-            # element read by row number OUTSIDE any prange iteration (the reduction): what thread row r holds under the
-            # symbolic schedule is the sum over the iterations assigned to it
-            r, idx = int(key[0]), int(key[1])
-            self.elems_read = getattr(self, "elems_read", {})
-            self.elems_read[(r, idx)] = self.elems_read.get((r, idx), 0) + 1
-            tot = 0
-            for it, d in self.contrib.items():
-                if idx in d:
-                    tot = tot + X(self._delta(it, r) * val(d[idx]))
-            return tot
-        it, idx = self._key(key)
-        return self.contrib.get(it, {}).get(idx, 0)
+        if self._is_tid_key(key):
+            if getattr(self, "M", None) is not None:
+                raise NotImplementedError("thread-id indexed access to the scratch after its reduction has begun")
+            it, idx = self._key(key)
+            return self.contrib.get(it, {}).get(idx, 0)
+        if isinstance(key, tuple) and len(key) == 2 and self.oracle.stack and getattr(self, "M", None) is None \
+                and isinstance(key[0], (int, _np.integer)) and not isinstance(key[1], slice):
+            # element selected by a plain number INSIDE the main prange iteration: not the iteration's own row
+            it, idx = self._key(key)
+            return self.contrib.get(it, {}).get(idx, 0)
+        if isinstance(key, (int, _np.integer)):
+            self.rows_read.append(int(key))
+        return self._materialise()[key]
 
     def __setitem__(self, key, value):
-        it, idx = self._key(key)
-        self.contrib.setdefault(it, {})[idx] = value
+        if self._is_tid_key(key) or (isinstance(key, tuple) and len(key) == 2 and self.oracle.stack
+                                     and getattr(self, "M", None) is None and isinstance(key[0], (int, _np.integer))
+                                     and not isinstance(key[1], slice)):
+            it, idx = self._key(key)
+            self.contrib.setdefault(it, {})[idx] = value
+            return
+        self._materialise()[key] = value
 
 
 def _thread_scratch(self, nT, n):
